@@ -1,6 +1,7 @@
 package refs
 
 import (
+	"database/sql"
 	"encoding/json"
 	"fmt"
 	"io"
@@ -115,6 +116,9 @@ func ReadLog(s ref.Store, name string) (log [][2]int, ok bool, err error) {
 	return log, true, nil
 }
 
+// curDB is the database of the SQL store under replay (fault injection inside the store).
+var curDB *sql.DB
+
 // Apply executes one abstract operation on the real store.
 func Apply(s ref.Store, o Op) RealRet {
 	switch o.Name {
@@ -123,6 +127,20 @@ func Apply(s ref.Store, o Op) RealRet {
 		return RealRet{Ok: err == nil, Err: errStr(err)}
 	case "setlog":
 		err := ref.SaveRef(s, o.N, Sum(o.V), "verif", "verif@example.invalid", "commit", "m", nil)
+		return RealRet{Ok: err == nil, Err: errStr(err)}
+	case "setlogf":
+		// the store's own write of the log record is made to fail (an SQL trigger aborts the insert):
+		// the logged set is ONE operation and must leave neither the value nor a log entry behind
+		if curDB == nil {
+			return RealRet{Err: "setlogf needs the SQL store"}
+		}
+		if _, err := curDB.Exec(`CREATE TRIGGER verif_fail BEFORE INSERT ON reflogs BEGIN SELECT RAISE(ABORT, 'verif-injected-failure'); END`); err != nil {
+			return RealRet{Err: "cannot install the failing trigger: " + err.Error()}
+		}
+		err := ref.SaveRef(s, o.N, Sum(o.V), "verif", "verif@example.invalid", "commit", "m", nil)
+		if _, derr := curDB.Exec(`DROP TRIGGER verif_fail`); derr != nil {
+			return RealRet{Err: "cannot remove the failing trigger: " + derr.Error()}
+		}
 		return RealRet{Ok: err == nil, Err: errStr(err)}
 	case "del":
 		err := s.Delete(o.N)
@@ -344,6 +362,7 @@ func Replay(i int, raw []byte) child.Result {
 			return child.Inconclusive(err)
 		}
 		defer db.Close()
+		curDB = db
 		s = st
 	}
 	var got RealRet
